@@ -185,6 +185,11 @@ def write_evidence(prop, tier, seed, mod, m, wall, n_viol, known_hit, inconclusi
 
 
 def main(argv):
+    for stream in (sys.stdout, sys.stderr):
+        try:
+            stream.reconfigure(errors='backslashreplace')
+        except Exception:
+            pass
     if len(argv) < 2:
         print(__doc__)
         return 64
